@@ -298,7 +298,10 @@ def policy_script(q, i, seed, mode):
              {"k": "chan", "cls": cls, "name": q["name"], "port": q["port"]},
              {"k": "data", "cls": "valid", "n": 8}]
     transport = ["ws", "legacy"][h % 2]
-    if mode == "host" and transport == "ws" and h % 3 != 0:
+    own_entry = mode == "host" and any("PH" in e for e in q["hosts"]) and q["name"] in (["H127", "7"], ["H127", "8"])
+    if own_entry:
+        transport = "ws"   # a user's own substituted entry and another user's, one after the other under one identifier
+    if mode == "host" and transport == "ws" and (h % 3 != 0 or own_entry):
         # tunnels of different users following each other on one gateway with the same connection identifier: what a
         # tunnel is allowed does not depend on who used the identifier before
         tun["cid"] = "{6f1c7a52-0000-4000-8000-%012d}" % (h % 2)
@@ -324,7 +327,8 @@ def gen_policy_scripts(work, mode, tier, seed, quick_n=1500):
                 cli = (t.get("useXFF") or "").split(",")[0].strip() or t.get("useIP")
                 buckets[(s["cfg"]["tokenAuth"], s["cfg"]["verifyIp"], str(t.get("mintXFF") or t.get("mintIP")), str(cli))].append(s)
             else:
-                buckets[(s["cfg"]["sel"], json.dumps(s["cfg"]["hosts"]), json.dumps(st["name"]), s["cfg"]["tokenAuth"])].append(s)
+                ph_user = s["tun"]["user"] if (any("PH" in e for e in s["cfg"]["hosts"]) and st["name"] in (["H127", "7"], ["H127", "8"])) else None
+                buckets[(s["cfg"]["sel"], json.dumps(s["cfg"]["hosts"]), json.dumps(st["name"]), s["cfg"]["tokenAuth"], str(ph_user))].append(s)
         keep = []
         per = max(1, quick_n // max(1, len(buckets)))
         for k in sorted(buckets):
